@@ -474,7 +474,14 @@ def r19_5(ctx: Ctx) -> None:
                                 return ast.Name(id=mapping[txt(node)], ctx=ast.Load())
                             return super().generic_visit(node)
                     full = ast.fix_missing_locations(Named().visit(full))
+                    # tests that say nothing about where the gene or the region lies (colour, database hits) branch the
+                    # iteration without bearing on the shift: both of their arms lead on to the same placement tests
+                    if not {n.id for n in ast.walk(full) if isinstance(n, ast.Name)} & {"f_s", "f_e", "r_s", "r_e"}:
+                        continue
                     terms.append(full if truth else ast.UnaryOp(op=ast.Not(), operand=full))
+                if any(txt(p) == txt(ast.BoolOp(op=ast.And(), values=terms) if len(terms) > 1 else terms[0] if terms
+                                       else ast.Constant(value=True)) for p in paths):
+                    continue
                 paths.append(ast.BoolOp(op=ast.And(), values=terms) if len(terms) > 1 else terms[0] if terms else ast.Constant(value=True))
         shifted = ast.fix_missing_locations(ast.BoolOp(op=ast.Or(), values=paths) if len(paths) > 1 else paths[0])
         same, cex, _ = decide(shifted, parse(f"({post_origin}) or f_e < f_s"), pre=pre)
